@@ -741,6 +741,21 @@ func runC15(r *core.Run) {
 			add([]c15File{{"data.xz", "xz:small", mode}, {"link.xz", "symlink:data.xz", 0}}, append(append([]string{}, opts...), "link.xz"))
 		}
 	}
+	// 3d. many operands: the exit status is non-zero when 1, 2, 255, 256, 257 or 512 members fail
+	// (missing files) next to one that succeeds
+	for _, nf := range []int{1, 2, 255, 256, 257, 512} {
+		for _, opts := range [][]string{{}, {"-d"}} {
+			argv := append([]string{}, opts...)
+			for i := 0; i < nf; i++ {
+				argv = append(argv, fmt.Sprintf("missing%03d.xz", i))
+			}
+			if len(opts) == 0 {
+				add([]c15File{pf("real")}, append(argv, "real"))
+			} else {
+				add([]c15File{{"real.xz", "xz:small", 0o644}}, append(argv, "real.xz"))
+			}
+		}
+	}
 	// 5. two-file invocations: every combination of member kinds
 	kinds := []c15File{{"g.xz", "xz:small", 0o644}, {"missing.xz", "", 0}, {"c.xz", "xz-corrupt:big", 0o644}, {"o.lzma", "lzma:small", 0o644}, {"t.xz", "xz-trunc:big", 0o644}, {"l.xz", "corpus:text3000-p6.xz", 0o644}}
 	for i, a := range kinds {
